@@ -27,8 +27,9 @@ def replay(c):
         r = sessions.record(c['session'], c.get('seed', 0))
         return (not r.get('completed')), f'session {c["session"]} under the natural schedule: completed={r.get("completed")} ' \
                                          f'blocked at {r.get("blocked_at")} clients {r.get("clients")} errors {r.get("errors")} {r.get("server_exc")}'
-    r = sessions.record(c['session'], c.get('seed', 0), mode='replay', schedule=[tuple(x) for x in c['schedule']], idle_s=3.0)
-    stuck = not r.get('completed') or bool(r.get('errors')) or bool(r.get('server_exc'))
+    r = sessions.record(c['session'], c.get('seed', 0), mode='replay', schedule=[tuple(x) for x in c['schedule']], idle_s=float(c.get('idle_s', 3.0)))
+    short = {k: v for k, v in (r.get('clients') or {}).items() if v != 'End of session'}
+    stuck = not r.get('completed') or bool(r.get('errors')) or bool(r.get('server_exc')) or bool(short)
     where = {k: (v and {kk: v.get(kk) for kk in ('kind', 'obj', 'k')}) for k, v in (r.get('blocked_at') or {}).items()}
     return stuck, f'session {c["session"]}: schedule of {len(c["schedule"])} operations forced on the real threads; ' \
-                  f'completed={r.get("completed")}; errors {r.get("errors")} {r.get("server_exc")}; threads blocked in real primitives: {where}'
+                  f'completed={r.get("completed")}; errors {r.get("errors")} {r.get("server_exc")}; clients not sent End of session: {short}; threads blocked in real primitives: {where}'
